@@ -18,12 +18,18 @@
              loop: it ends within the model's fuel) — NOT proved; carried as the named hypothesis
   T10.5  Montgomery-form inversion (adjuster `R²`): the retrieved inverse times the retrieved value is 1 — `_partial` (same H)
   T10.6  constant-time and vartime inverters / gcd agree — `_partial` (same H for both)
+  T10.7  SOUNDNESS of the inverters WITHOUT `H_divsteps_done` ("never a wrong inverse"): whenever `inv` / `inv_vartime`
+         report `is_some`, `gcd(v, M) = 1`, the value is `< M` and `value·v ≡ adjuster (mod M)`; `to_uint`'s non-negativity
+         assertion never fires — full: `safegcd_inv_sound`, `safegcd_inv_vartime_sound`, `safegcd_inv_sound_gcd`,
+         `safegcd_inv_vartime_sound_gcd`, `monty_inv_sound`, `safegcd_ct_vartime_agree_sound`.  Only COMPLETENESS
+         (`gcd = 1 ⇒ is_some`) still needs the iteration bound (T10.4 (f)).
 -/
 import CB.Lemmas.C10Gcd
 import CB.Lemmas.C10Jump
 import CB.Lemmas.C10De
 import CB.Lemmas.C10Conv
 import CB.Lemmas.C10Final
+import CB.Lemmas.C10Sound
 import CB.Lemmas.C10Even
 namespace CB.P10
 open CB.InvMod2k CB.Gcd CB.SafeGcd
@@ -544,5 +550,155 @@ example : ulz [1, 0, 0] = 185 ∧ ulzBoxed [1, 0, 0] = 123 ∧ ulz [1, 1, 1] = 6
 example : uval (uneg [9, 0, 0]) = -9 ∧ uisNeg (uneg [9, 0, 0]) = true ∧
     norm [7, 0, 0] (uneg [9, 0, 0]) false = [5, 0, 0] ∧ norm [7, 0, 0] (uneg [9, 0, 0]) true = [2, 0, 0] := by
   decide +kernel
+
+/-! ## T10.7 — soundness of the inverters with NO hypothesis about the trip count ("never a wrong inverse")
+
+`is_some = f.eq(ONE) | f.eq(MINUS_ONE)` (`safegcd.rs`, `SafeGcdInverter::inv`) does not look at `g`, and the loop invariants
+`d·v ≡ f·adj (mod M)`, `d ∈ (−2M, M)`, `gcd(f, g) = gcd(M, v)` hold after ANY number of batches (T10.4 (e)).  So the half
+"`is_some` ⇒ the value is the inverse" needs no iteration bound: the theorems below are the `_partial` theorems' soundness
+clauses WITHOUT `H_divsteps_done` — for every limb count, every odd modulus, every adjuster `< M`, every `v`.  What still
+needs `H_divsteps_done` is only completeness (`gcd(v, M) = 1 ⇒ is_some`): were the fixed trip count too small, the inverter
+could answer `none` for an invertible `v`, but it could never answer `some(wrong)`.
+`negative = false` (the `to_uint` assertion) is also unconditional: `norm` maps every `d ∈ (−2M, M)` into `[0, M)`. -/
+
+/-- `SafeGcdInverter::new(M, adj).inv(v)` (constant-time form), NO hypothesis on `gZero`: the `to_uint` non-negativity
+    assertion never fires, and whenever `is_some` is reported the value is `< M` and `value·v ≡ adj (mod M)`. -/
+theorem safegcd_inv_sound (sat : Nat) (hsat : 1 ≤ sat)
+    (mw aw vw : List Nat) (hmw : CB.WF mw) (haw : CB.WF aw) (hvw : CB.WF vw)
+    (lm : mw.length = sat) (la : aw.length = sat) (lv : vw.length = sat)
+    (hodd : CB.val mw % 2 = 1) (hadj : CB.val aw < CB.val mw) :
+    ((Inverter.new sat mw aw).inv sat vw).negative = false ∧
+    (((Inverter.new sat mw aw).inv sat vw).isSome = true →
+      CB.val ((Inverter.new sat mw aw).inv sat vw).value < CB.val mw ∧
+      CB.val ((Inverter.new sat mw aw).inv sat vw).value * CB.val vw ≡ CB.val aw [MOD CB.val mw]) := by
+  obtain ⟨a, b⟩ := inv_fixed_sound sat hsat mw aw vw hmw haw hvw lm la lv hodd hadj
+  exact ⟨a, fun h => (b h).2⟩
+
+/-- `inv_vartime`: the same, whether or not the `while g != 0` loop ended within the model's fuel (the lemma behind it,
+    `inv_vartime_sound_fuel`, holds for ANY fuel). -/
+theorem safegcd_inv_vartime_sound (sat : Nat) (hsat : 1 ≤ sat)
+    (mw aw vw : List Nat) (hmw : CB.WF mw) (haw : CB.WF aw) (hvw : CB.WF vw)
+    (lm : mw.length = sat) (la : aw.length = sat) (lv : vw.length = sat)
+    (hodd : CB.val mw % 2 = 1) (hadj : CB.val aw < CB.val mw) :
+    ((Inverter.new sat mw aw).invVartime sat vw).negative = false ∧
+    (((Inverter.new sat mw aw).invVartime sat vw).isSome = true →
+      CB.val ((Inverter.new sat mw aw).invVartime sat vw).value < CB.val mw ∧
+      CB.val ((Inverter.new sat mw aw).invVartime sat vw).value * CB.val vw ≡ CB.val aw [MOD CB.val mw]) := by
+  obtain ⟨a, b⟩ := inv_vartime_sound sat hsat mw aw vw hmw haw hvw lm la lv hodd hadj
+  exact ⟨a, fun h => (b h).2⟩
+
+/-- `is_some` is never reported for a non-invertible `v`: `is_some ⇒ gcd(v, M) = 1`, NO hypothesis on `gZero`.
+    Stated for EVERY adjuster `< M` (it comes from the loop invariant `gcd(f, g) = gcd(M, v)` with `f = ±1`, not from the
+    congruence); the adjuster `ONE` of `inv_odd_mod` (`CB.val aw = 1`, `M ≥ 3`) is the instance where, by
+    `safegcd_inv_sound`, the value is moreover the true inverse `value·v ≡ 1 (mod M)`. -/
+theorem safegcd_inv_sound_gcd (sat : Nat) (hsat : 1 ≤ sat)
+    (mw aw vw : List Nat) (hmw : CB.WF mw) (haw : CB.WF aw) (hvw : CB.WF vw)
+    (lm : mw.length = sat) (la : aw.length = sat) (lv : vw.length = sat)
+    (hodd : CB.val mw % 2 = 1) (hadj : CB.val aw < CB.val mw) :
+    ((Inverter.new sat mw aw).inv sat vw).isSome = true → Nat.gcd (CB.val vw) (CB.val mw) = 1 :=
+  fun h => ((inv_fixed_sound sat hsat mw aw vw hmw haw hvw lm la lv hodd hadj).2 h).1
+
+/-- … and for `inv_vartime`. -/
+theorem safegcd_inv_vartime_sound_gcd (sat : Nat) (hsat : 1 ≤ sat)
+    (mw aw vw : List Nat) (hmw : CB.WF mw) (haw : CB.WF aw) (hvw : CB.WF vw)
+    (lm : mw.length = sat) (la : aw.length = sat) (lv : vw.length = sat)
+    (hodd : CB.val mw % 2 = 1) (hadj : CB.val aw < CB.val mw) :
+    ((Inverter.new sat mw aw).invVartime sat vw).isSome = true → Nat.gcd (CB.val vw) (CB.val mw) = 1 :=
+  fun h => ((inv_vartime_sound sat hsat mw aw vw hmw haw hvw lm la lv hodd hadj).2 h).1
+
+/-- the adjuster-`ONE` reading (`inv_odd_mod`; `CB.val aw = 1` forces `M ≥ 3` with `M` odd): whenever `is_some` is
+    reported, the value is a true inverse in `[0, M)` and `v` is a unit. -/
+theorem safegcd_inv_sound_one (sat : Nat) (hsat : 1 ≤ sat)
+    (mw aw vw : List Nat) (hmw : CB.WF mw) (haw : CB.WF aw) (hvw : CB.WF vw)
+    (lm : mw.length = sat) (la : aw.length = sat) (lv : vw.length = sat)
+    (hodd : CB.val mw % 2 = 1) (hone : CB.val aw = 1) (hm3 : 3 ≤ CB.val mw) :
+    ((Inverter.new sat mw aw).inv sat vw).isSome = true →
+      Nat.gcd (CB.val vw) (CB.val mw) = 1 ∧
+      CB.val ((Inverter.new sat mw aw).inv sat vw).value < CB.val mw ∧
+      CB.val ((Inverter.new sat mw aw).inv sat vw).value * CB.val vw ≡ 1 [MOD CB.val mw] := by
+  intro h
+  have := (inv_fixed_sound sat hsat mw aw vw hmw haw hvw lm la lv hodd (by omega)).2 h
+  rwa [hone] at this
+
+/-- T10.5 without `H_divsteps_done` — Montgomery-form inversion (adjuster `R² mod M`, operand `a·R mod M`): whenever the
+    inverter reports `is_some`, `a` is a unit, the result is `< M`, and the retrieved result times the retrieved operand is
+    `1 (mod M)`. -/
+theorem monty_inv_sound (sat : Nat) (hsat : 1 ≤ sat)
+    (mw aw vw : List Nat) (hmw : CB.WF mw) (haw : CB.WF aw) (hvw : CB.WF vw)
+    (lm : mw.length = sat) (la : aw.length = sat) (lv : vw.length = sat)
+    (hodd : CB.val mw % 2 = 1)
+    (a R Rinv : Nat) (hR : R * Rinv ≡ 1 [MOD CB.val mw])
+    (hv : CB.val vw = a * R % CB.val mw) (hadjv : CB.val aw = R * R % CB.val mw) :
+    ((Inverter.new sat mw aw).inv sat vw).isSome = true →
+      Nat.gcd a (CB.val mw) = 1 ∧
+      CB.val ((Inverter.new sat mw aw).inv sat vw).value < CB.val mw ∧
+      (CB.val ((Inverter.new sat mw aw).inv sat vw).value * Rinv % CB.val mw) * (a % CB.val mw)
+        ≡ 1 [MOD CB.val mw] := by
+  intro h
+  have hMpos : 0 < CB.val mw := by omega
+  have hadj : CB.val aw < CB.val mw := by rw [hadjv]; exact Nat.mod_lt _ hMpos
+  obtain ⟨g1, l1, m1⟩ := (inv_fixed_sound sat hsat mw aw vw hmw haw hvw lm la lv hodd hadj).2 h
+  have hRcop : Nat.Coprime R (CB.val mw) := Nat.coprime_of_mul_modEq_one Rinv hR
+  have hgcd : Nat.gcd (CB.val vw) (CB.val mw) = Nat.gcd a (CB.val mw) := by
+    rw [hv, (Nat.mod_modEq (a * R) (CB.val mw)).gcd_eq]
+    exact Nat.Coprime.gcd_mul_right_cancel a hRcop
+  exact ⟨hgcd ▸ g1, l1, monty_retrieved_one _ _ _ _ a R Rinv hR hv hadjv m1⟩
+
+/-- T10.6 without `H_divsteps_done`: whenever BOTH forms report `is_some`, they return the same value (each is the unique
+    `x < M` with `x·v ≡ adj`, `v` a unit).  (That they report `is_some` for the same inputs is completeness: `_partial`.) -/
+theorem safegcd_ct_vartime_agree_sound (sat : Nat) (hsat : 1 ≤ sat)
+    (mw aw vw : List Nat) (hmw : CB.WF mw) (haw : CB.WF aw) (hvw : CB.WF vw)
+    (lm : mw.length = sat) (la : aw.length = sat) (lv : vw.length = sat)
+    (hodd : CB.val mw % 2 = 1) (hadj : CB.val aw < CB.val mw) :
+    ((Inverter.new sat mw aw).inv sat vw).isSome = true →
+    ((Inverter.new sat mw aw).invVartime sat vw).isSome = true →
+      CB.val ((Inverter.new sat mw aw).inv sat vw).value = CB.val ((Inverter.new sat mw aw).invVartime sat vw).value := by
+  intro h1 h2
+  obtain ⟨g1, l1, m1⟩ := (inv_fixed_sound sat hsat mw aw vw hmw haw hvw lm la lv hodd hadj).2 h1
+  obtain ⟨_, l2, m2⟩ := (inv_vartime_sound sat hsat mw aw vw hmw haw hvw lm la lv hodd hadj).2 h2
+  have hcop : Nat.Coprime (CB.val mw) (CB.val vw) := by rw [Nat.Coprime, Nat.gcd_comm]; exact g1
+  have := Nat.ModEq.cancel_right_of_coprime hcop (m1.trans m2.symm)
+  unfold Nat.ModEq at this
+  rwa [Nat.mod_eq_of_lt l1, Nat.mod_eq_of_lt l2] at this
+
+/-- non-vacuity (two words): `M = 2^64 + 13`, adjuster ONE, `v = 5`: the constant-time inverter reports `is_some` with the
+    value `3689348814741910326` (`5·value = 2^64 + 14`), and `inv_vartime` inverts the two-word `v = 2^64 + 0xfedcba9876543210`. -/
+example : ((Inverter.new 2 [13, 1] [1, 0]).inv 2 [5, 0]).isSome = true ∧
+    ((Inverter.new 2 [13, 1] [1, 0]).inv 2 [5, 0]).value = [3689348814741910326, 0] ∧
+    ((Inverter.new 2 [13, 1] [1, 0]).invVartime 2 [0xfedcba9876543210, 1]).isSome = true ∧
+    ((Inverter.new 2 [13, 1] [1, 0]).invVartime 2 [0xfedcba9876543210, 1]).value = [4097515905738953832, 0] := by
+  decide +kernel
+
+/-- non-vacuity: every hypothesis of `safegcd_inv_sound` / `safegcd_inv_sound_gcd` / `safegcd_inv_sound_one` is
+    dischargeable on that instance, and the conclusions are the concrete facts `value·5 ≡ 1`, `gcd(5, 2^64+13) = 1`. -/
+example : CB.val ((Inverter.new 2 [13, 1] [1, 0]).inv 2 [5, 0]).value * 5 ≡ 1 [MOD 2 ^ 64 + 13] ∧
+    Nat.gcd 5 (2 ^ 64 + 13) = 1 := by
+  have h : ((Inverter.new 2 [13, 1] [1, 0]).inv 2 [5, 0]).isSome = true := by decide +kernel
+  have hw1 : CB.WF [13, 1] := by unfold CB.WF; decide
+  have hw2 : CB.WF [1, 0] := by unfold CB.WF; decide
+  have hw3 : CB.WF [5, 0] := by unfold CB.WF; decide
+  have hm : CB.val [13, 1] = 2 ^ 64 + 13 := by decide
+  have hv : CB.val [5, 0] = 5 := by decide
+  have ha : CB.val [1, 0] = 1 := by decide
+  have s1 := ((safegcd_inv_sound 2 (by decide) [13, 1] [1, 0] [5, 0] hw1 hw2 hw3 rfl rfl rfl (by decide) (by decide)).2 h).2
+  have s2 := safegcd_inv_sound_gcd 2 (by decide) [13, 1] [1, 0] [5, 0] hw1 hw2 hw3 rfl rfl rfl (by decide) (by decide) h
+  rw [hm, hv] at s2
+  rw [hm, hv, ha] at s1
+  exact ⟨s1, s2⟩
+
+/-- non-vacuity of `safegcd_inv_vartime_sound` / `safegcd_ct_vartime_agree_sound`: both forms on `3⁻¹ mod 7`. -/
+example : ((Inverter.new 1 [7] [1]).invVartime 1 [3]).isSome = true ∧
+    ((Inverter.new 1 [7] [1]).invVartime 1 [3]).negative = false ∧
+    ((Inverter.new 1 [7] [1]).invVartime 1 [3]).value = [5] ∧
+    ((Inverter.new 1 [7] [1]).inv 1 [3]).value = [5] := by decide +kernel
+
+/-- non-vacuity of `monty_inv_sound`: `M = 7`, `R = 2^64 mod 7 = 2`, `R⁻¹ = 4`, `a = 3`: operand `aR = 6`, adjuster
+    `R² = 4`; the inverter reports `is_some` with `x = 3` (`3·6 ≡ 4`), retrieved `3·4 mod 7 = 5 = 3⁻¹`. -/
+example : ((Inverter.new 1 [7] [4]).inv 1 [6]).isSome = true ∧ ((Inverter.new 1 [7] [4]).inv 1 [6]).value = [3] ∧
+    (2 * 4) % 7 = 1 ∧ CB.val [6] = 3 * 2 % CB.val [7] ∧ CB.val [4] = 2 * 2 % CB.val [7] ∧
+    (CB.val [3] * 4 % 7) * (3 % 7) % 7 = 1 := by decide +kernel
+
+/-- a reported `none` for a non-unit (soundness says nothing about it, and must not): `gcd(14, 21) = 7`. -/
+example : ((Inverter.new 1 [21] [1]).inv 1 [14]).isSome = false := by decide +kernel
 
 end CB.P10
